@@ -56,6 +56,8 @@ pub fn analyze_dir(
     target_dir: &str,
     vulnerabilities: Vec<Vulnerability>,
 ) -> HashMap<Vulnerability, Vec<(String, BTreeSet<LineNumber>)>> {
+    #[cfg(solstat_verif)]
+    use crate::verif_shim::fs;
     //Initialize a new hashmap to keep track of all the optimizations across the target dir
     let mut vulnerability_locations: HashMap<Vulnerability, Vec<(String, BTreeSet<LineNumber>)>> =
         HashMap::new();
